@@ -35,12 +35,98 @@ def call_name(call):
     return dotted(call.func)
 
 
-def norm(node):
-    """Normalised source of a node (whitespace/comments gone)."""
+class _CanonUnparser(ast._Unparser):
+    """ast.unparse with keyword arguments in alphabetical order (**kwargs last), so that the
+    order in which keywords are written never matters to a rule"""
+
+    def visit_Call(self, node):
+        kws = node.keywords
+        if len(kws) > 1:
+            named = sorted((k for k in kws if k.arg is not None), key=lambda k: k.arg)
+            star = [k for k in kws if k.arg is None]
+            if [k.arg for k in named + star] != [k.arg for k in kws]:
+                node = ast.Call(func=node.func, args=node.args, keywords=named + star)
+        return super().visit_Call(node)
+
+
+# ----------------------------------------------------------------------------------------------
+# Anchor locals.  Many rules compare the normalised text of a construct with a pattern that mentions
+# local variable names of the function as it is written today.  Which local names each rule relies on,
+# per analysed function, is *recorded* from a run on the clean tree (tools/gen_anchors.py ->
+# menpolint/anchors.json).  When a rule later reports a violation in a function most of whose anchor
+# locals have vanished (renamed / moved into a helper), the rule has lost its anchor: check.py turns
+# that report into an ANALYSIS-ERROR, never a violation.
+PATTERN_LOG = None  # set to a list by tools/gen_anchors.py to record (root function node, pattern)
+
+
+def _root_of(node):
+    n = node
+    last_fn = node if isinstance(node, (ast.FunctionDef, ast.AsyncFunctionDef)) else None
+    while n is not None:
+        if isinstance(n, (ast.FunctionDef, ast.AsyncFunctionDef)):
+            last_fn = n
+        n = getattr(n, "_parent", None)
+    return last_fn
+
+
+def pattern_names(pattern):
+    """identifiers of a pattern that stand for plain names (not attributes / keywords)"""
     try:
-        return ast.unparse(node)
+        tree = ast.parse(pattern.strip())
+        return {n.id for n in ast.walk(tree) if isinstance(n, ast.Name)}
+    except SyntaxError:
+        import re
+        return {m.group(1) for m in re.finditer(r"(?<![\\w.])([A-Za-z_][A-Za-z0-9_]*)", pattern)}
+
+
+class NormStr(str):
+    """normalised source text that remembers the function it came from (only used to record anchors)"""
+    __slots__ = ("_root",)
+
+    def __new__(cls, text, root=None):
+        o = super().__new__(cls, text)
+        o._root = root
+        return o
+
+    def _log(self, other):
+        if PATTERN_LOG is not None and self._root is not None and isinstance(other, str) and not isinstance(other, NormStr):
+            PATTERN_LOG.append((self._root, other))
+
+    def __eq__(self, other):
+        self._log(other)
+        return str.__eq__(self, other)
+
+    def __ne__(self, other):
+        self._log(other)
+        return str.__ne__(self, other)
+
+    __hash__ = str.__hash__
+
+    def __contains__(self, snippet):
+        self._log(snippet)
+        return str.__contains__(self, snippet)
+
+    def startswith(self, prefix, *a):
+        if isinstance(prefix, str):
+            self._log(prefix)
+        return str.startswith(self, prefix, *a)
+
+    def endswith(self, suffix, *a):
+        if isinstance(suffix, str):
+            self._log(suffix)
+        return str.endswith(self, suffix, *a)
+
+
+def norm(node):
+    """Normalised source of a node (whitespace/comments gone, keyword arguments sorted)."""
+    try:
+        text = _CanonUnparser().visit(node)
     except Exception:
-        return "<%s>" % type(node).__name__
+        try:
+            text = ast.unparse(node)
+        except Exception:
+            text = "<%s>" % type(node).__name__
+    return NormStr(text, _root_of(node) if isinstance(node, ast.AST) else None)
 
 
 def stmt_of(node):
@@ -163,6 +249,8 @@ class Defs:
 
     def single(self, name):
         """The unique plain assignment value of a local, else None."""
+        if PATTERN_LOG is not None and name in self.defs:
+            PATTERN_LOG.append((self.fn, name))
         d = [x for x in self.of(name)]
         if len(d) == 1 and d[0][0] == "assign":
             return d[0][1]
